@@ -128,6 +128,10 @@ def catalogue(rng, target, others, schemas):
             f = getattr(RW, name)
             if name in ('refactor_reference', 'replace_this_with_var', 'replace_var_with_this'):
                 ops.append((name, lambda f=f: f(t, gen.pick(rng, ('A', 'B', 'Zz')))))
+            elif name == 'simplify':
+                # targets can be results of earlier calls (joins with companions, copies with donated operands):
+                # the power filter is applied at the call, not only to the parsed input
+                ops.append((name, lambda f=f: None if S.power_bomb(t) else f(t)))
             else:
                 ops.append((name, lambda f=f: f(t)))
     if is_event:
